@@ -11,7 +11,7 @@ open CoCo.Gen (InstrRow)
 /-- a translated statement (`N` = number of statements of the program) -/
 structure StmtOK (N : Nat) (s : Stmt) : Prop where
   val : s.operand.value.Good N
-  addr : s.pkg.address.Good N
+  addr : s.pkg.address.Good 0            -- no label in a preset address: a 16-bit magnitude
   choices : ChoicesOK N s.pkg
   rel : s.operand.kind = .relative →
     (∃ b, s.pkg.additional.int? = some b) ∧ (s.row.isShortBranch = false → 1 ≤ s.pkg.size)
